@@ -10,8 +10,9 @@ import Nstd.Buffer.LemmasStep
   (`nvars` default-constructed Buffer variables, `regs` = attachable caller memory) and hold
   for EVERY operation list, every number of variables and every region content; no bound on
   sizes, offsets or the length of the history.  A fault (`none`) of the model is an access
-  outside the object's own allocation / the attached range, a store into attached memory, or
-  a read of a freed block (Model.lean).
+  outside the object's own allocation / the attached range, a store into attached memory, an
+  access to a block that has been `delete[]`d, or a `delete[]` of a block that is not live
+  (double free) – see `ledger_faults` and Model.lean.
 -/
 namespace Nstd.Buffer
 
@@ -35,12 +36,14 @@ theorem terminator_zero (nvars : Nat) (regs : List (List Byte)) (ops : List Op) 
     (hb : st.getBuf v = some b) (hown : b.owning = true) :
     Nstd.Buffer.terminator st v = some (some (some 0)) := by
   have hp := run_post ops (qs := Spec.init nvars) (init_inv nvars regs) (init_rel nvars regs) hrun
-  have hbi := hp.1 v b hb
+  have hbi := hp.1.1 v b hb
+  have hlive := hp.1.2.live_of_owned v b
   obtain ⟨store, s, e, cap⟩ := b
   cases store with
-  | own m =>
+  | own id m =>
     simp only [BInv] at hbi
     obtain ⟨hl, _, he, ht⟩ := hbi
+    have hid : id ∈ st.led.live := hlive id hb rfl
     have hlt : e < m.length := by omega
     have hget : m[e] = some 0 := by
       rw [List.getElem?_eq_getElem hlt] at ht
@@ -50,7 +53,13 @@ theorem terminator_zero (nvars : Nat) (regs : List (List Byte)) (ops : List Op) 
       simp only [rdList, h1, if_true, Option.some.injEq]
       rw [List.drop_eq_getElem_cons hlt, hget]
       simp
-    simp only [Nstd.Buffer.terminator, hb, Option.bind_eq_bind, Option.bind_some, hrd]
+    have hload : (Store.own id m).load e 1 st.led = some ([some 0], st.led) := by
+      have : OkM ((Store.own id m).load e 1) st.led (fun c L' => c = [some 0] ∧ L' = st.led) := by
+        simp only [Store.load, okM_bind, okM_checkLive, okM_liftO, hrd, ok_some]
+        simp [hid]
+      obtain ⟨c, L', hc, rfl, rfl⟩ := this
+      exact hc
+    simp only [Nstd.Buffer.terminator, hb, Option.bind_eq_bind, Option.bind_some, hload]
     rfl
   | att m => simp [Buf.owning] at hown
   | dflt c => simp [Buf.owning] at hown
@@ -65,8 +74,7 @@ theorem refines (nvars : Nat) (regs : List (List Byte)) (ops : List Op) (st : St
   have hp := run_post ops (qs := Spec.init nvars) (init_inv nvars regs) (init_rel nvars regs) hrun
   have hlen : st.bufs.length = nvars := by simpa [init] using hp.2.2.2
   have hb : st.bufs[v]? = some st.bufs[v] := List.getElem?_eq_getElem (hlen ▸ hv)
-  refine ⟨st.bufs[v].data, ?_, hp.2.1.2 v _ hb⟩
-  simp [contents, State.getBuf, hb, contents_ok (hp.1 v _ hb)]
+  exact ⟨st.bufs[v].data, contents_state hp.1 (hlen ▸ hv), hp.2.1.2 v _ hb⟩
 
 /-- **Attached memory is never modified.**  The attachable regions are the same after any
     history.  (In the model a store of at least one byte through a pointer into attached memory
@@ -76,10 +84,50 @@ theorem attached_untouched (nvars : Nat) (regs : List (List Byte)) (ops : List O
   (run_post ops (qs := Spec.init nvars) (init_inv nvars regs) (init_rel nvars regs) hrun).2.2.1
 
 /-- the model treats every store of ≥ 1 byte into attached memory (or the `_capacity` cell) as a fault -/
-theorem att_store_faults (m : List Byte) (off : Nat) (d : List Byte) (h : d ≠ []) :
-    (Store.att m).write off d = none ∧ ∀ c, (Store.dflt c).write off d = none := by
+theorem att_store_faults (m : List Byte) (off : Nat) (d : List Byte) (L : Ledger) (h : d ≠ []) :
+    (Store.att m).write off d L = none ∧ ∀ c, (Store.dflt c).write off d L = none := by
   have : d.length ≠ 0 := fun h0 => h (List.eq_nil_of_length_eq_zero h0)
-  simp [Store.write, this]
+  simp [Store.write, this, fault]
+
+/-! ### allocation ledger: no leak, no dangling `buffer`, no double free, no use of a freed block -/
+
+/-- **No leak.**  In every reachable state every live allocation (`new char[]` not yet `delete[]`d)
+    is the `buffer` of some variable. -/
+theorem no_leak (nvars : Nat) (regs : List (List Byte)) (ops : List Op) (st : State)
+    (hrun : run (init nvars regs) ops = some st) (id : Nat) (hid : id ∈ st.led.live) :
+    ∃ v b, st.getBuf v = some b ∧ b.ownId = some id :=
+  (run_post ops (qs := Spec.init nvars) (init_inv nvars regs) (init_rel nvars regs) hrun).1.2.owned_of_live id hid
+
+/-- **No dangling pointer, exclusive ownership.**  In every reachable state the block an owning
+    variable points to is live, and no two variables point to the same block (so that the
+    destructors delete every block exactly once). -/
+theorem owned_blocks_live_and_exclusive (nvars : Nat) (regs : List (List Byte)) (ops : List Op) (st : State)
+    (hrun : run (init nvars regs) ops = some st) (v : Nat) (b : Buf) (id : Nat)
+    (hb : st.getBuf v = some b) (hid : b.ownId = some id) :
+    id ∈ st.led.live ∧ ∀ w b', st.getBuf w = some b' → b'.ownId = some id → w = v := by
+  have hl := (run_post ops (qs := Spec.init nvars) (init_inv nvars regs) (init_rel nvars regs) hrun).1.2
+  exact ⟨hl.live_of_owned v b id hb hid, fun w b' hw hid' => hl.excl w v b' b id hw hb hid' hid⟩
+
+/-- **Double free and use after free are faults of the model** – hence excluded for every
+    well-formed history by `no_fault`: `delete[]` of a block that is not live faults, and so does
+    every load/store (even of zero bytes) through a pointer into a block that is not live. -/
+theorem ledger_faults (id : Nat) (L : Ledger) (h : id ∉ L.live) (m : List Byte) (off n : Nat) (d : List Byte) :
+    (Store.own id m).release L = none ∧ (Store.own id m).load off n L = none ∧
+      (Store.own id m).write off d L = none := by
+  simp [Store.release, Store.load, Store.write, deleteId, checkLive, h, bind]
+
+/-- after `delete[]` the block is not live any more (a second `delete[]` or an access faults) and the
+    other live blocks stay live -/
+theorem delete_removes (id : Nat) (L L' : Ledger) (m : List Byte) (h : (Store.own id m).release L = some ((), L')) :
+    id ∉ L'.live ∧ ∀ j, j ≠ id → (j ∈ L'.live ↔ j ∈ L.live) := by
+  simp only [Store.release, deleteId] at h
+  by_cases hl : id ∈ L.live
+  · simp only [hl, if_true, Option.some.injEq, Prod.mk.injEq, true_and] at h
+    subst h
+    simp
+    intro j hj
+    simp [hj]
+  · simp [hl] at h
 
 /-- `operator==` / `operator!=` read only the exposed bytes: in every reachable state the comparison
     of two variables does not fault and is the equality of their contents. -/
@@ -126,6 +174,19 @@ example : ∃ st b, run (init 2 exRegs) exOps = some st ∧ st.getBuf 0 = some b
     contents st 0 = some [some 9, some 7, some 8, some 9, some 7, some 0x13] ∧
     contents st 1 = some [some 0x20] := by
   refine ⟨_, _, rfl, rfl, rfl, rfl, rfl⟩
+
+/-- ledger non-vacuity: that history allocates nine blocks and ends with exactly one live block, the
+    `buffer` of variable 0 -/
+example : ∃ st b, run (init 2 exRegs) exOps = some st ∧ st.led.next = 9 ∧ st.led.live = [8] ∧
+    st.getBuf 0 = some b ∧ b.ownId = some 8 := by
+  refine ⟨_, _, rfl, rfl, rfl, rfl, rfl⟩
+
+/-- the ledger does catch a use after free and a double free (what `no_fault` excludes) -/
+example : ((do (Store.own 0 [none]).release; (Store.own 0 [none]).load 0 0 : M (List Byte))
+      { next := 1, live := [0] }).isNone = true ∧
+    ((do (Store.own 0 [none]).release; (Store.own 0 [none]).release : M Unit)
+      { next := 1, live := [0] }).isNone = true := by
+  exact ⟨rfl, rfl⟩
 
 /-- `Match` is not trivially true: a specified byte must be equal, lengths must agree -/
 example : ¬ Match [some 1] [some 2] := by
